@@ -14,7 +14,7 @@ use std::process::{Command, Stdio};
 use std::sync::atomic::{AtomicUsize, Ordering};
 use std::time::Duration;
 
-use gc_arena::{Arena, Collect, Gc, Lock, Mutation, Rootable};
+use gc_arena::{Arena, Collect, DynamicRoot, DynamicRootSet, Gc, GcWeak, Lock, Mutation, RefLock, Rootable};
 
 static DROPS: AtomicUsize = AtomicUsize::new(0);
 
@@ -57,7 +57,35 @@ pub const VARIANTS: &[(&str, &[&str])] = &[
     ("teardown-mid-cycle", &["C04"]),
     ("chain-survives", &["C01"]),
     ("chain-collected", &["C02"]),
+    // (appended later: the plans of the variants above do not depend on these)
+    ("fanout-survives", &["C01"]),
+    ("fanout-collected", &["C02"]),
+    ("barriers-many", &["C06"]),
+    ("weak-many", &["C05"]),
+    ("handles-many", &["C14"]),
 ];
+
+/// A wide root: n children of one object (the gray queue holds them all at once), n weak
+/// pointers, and a DynamicRootSet.
+#[derive(Collect)]
+#[collect(no_drop)]
+struct Wide<'gc> {
+    kids: Gc<'gc, RefLock<Vec<Gc<'gc, RefLock<Par<'gc>>>>>>,
+    weaks: Gc<'gc, RefLock<Vec<GcWeak<'gc, Cnt>>>>,
+    set: DynamicRootSet<'gc>,
+}
+
+/// A parent that may adopt one child.
+#[derive(Collect)]
+#[collect(no_drop)]
+struct Par<'gc> {
+    c: Cnt,
+    kid: Option<Gc<'gc, Cnt>>,
+}
+
+fn wide<'gc>(mc: &Mutation<'gc>) -> Wide<'gc> {
+    Wide { kids: Gc::new(mc, RefLock::new(Vec::new())), weaks: Gc::new(mc, RefLock::new(Vec::new())), set: DynamicRootSet::new(mc) }
+}
 
 /// The scenario itself. Err(message) = the property is violated.
 fn scenario(variant: &str, n: usize) -> Result<(), String> {
@@ -145,6 +173,157 @@ fn scenario(variant: &str, n: usize) -> Result<(), String> {
             drop(arena);
             if drops() != n {
                 return Err(format!("{} of {n} destructors ran by the time the arena was gone", drops()));
+            }
+        }
+        "fanout-survives" | "fanout-collected" => {
+            let mut arena = Arena::<Rootable![Wide<'_>]>::new(|mc| {
+                let w = wide(mc);
+                let mut v = w.kids.borrow_mut(mc);
+                for i in 0..n {
+                    v.push(Gc::new(mc, RefLock::new(Par { c: Cnt(i as u32), kid: None })));
+                }
+                drop(v);
+                w
+            });
+            arena.finish_cycle();
+            arena.finish_cycle();
+            if drops() != 0 {
+                return Err(format!("{n} objects hang off one reachable vector; two full cycles destructed {} of them", drops()));
+            }
+            // a paced cycle too, in steps, with garbage made in between
+            let m = arena.metrics().clone();
+            for _ in 0..64 {
+                arena.mutate(|mc, _| garbage(mc, 256));
+                m.adjust_debt(n as f64 / 16.0);
+                arena.collect_debt();
+            }
+            arena.finish_cycle();
+            arena.finish_cycle();
+            if drops() != 64 * 256 {
+                return Err(format!("{n} reachable objects and {} garbage ones went through a stepped cycle: {} destructors ran", 64 * 256, drops()));
+            }
+            if variant == "fanout-collected" {
+                arena.mutate(|mc, root| root.kids.borrow_mut(mc).clear());
+                arena.finish_cycle();
+                arena.finish_cycle();
+                // what is left: the two vectors' objects and the set's inner object
+                if drops() != n + 64 * 256 {
+                    return Err(format!("a vector of {n} objects was cleared; after two full cycles {} of them were destructed", drops() - 64 * 256));
+                }
+            }
+            drop(arena);
+            if drops() != n + 64 * 256 || m.total_gc_count() != 0 {
+                return Err(format!("{} of {} destructors ran by the time the arena was gone, count {}", drops(), n + 64 * 256, m.total_gc_count()));
+            }
+        }
+        "barriers-many" => {
+            // every one of n black parents adopts a fresh child while the arena is fully marked:
+            // n backward barriers, n entries in the re-trace queue at once
+            let mut arena = Arena::<Rootable![Wide<'_>]>::new(|mc| {
+                let w = wide(mc);
+                let mut v = w.kids.borrow_mut(mc);
+                for i in 0..n {
+                    v.push(Gc::new(mc, RefLock::new(Par { c: Cnt(i as u32), kid: None })));
+                }
+                drop(v);
+                w
+            });
+            arena.finish_marking();
+            arena.mutate(|mc, root| {
+                for (i, p) in root.kids.borrow().iter().enumerate() {
+                    p.borrow_mut(mc).kid = Some(Gc::new(mc, Cnt(i as u32)));
+                }
+            });
+            arena.finish_cycle();
+            arena.finish_cycle();
+            if drops() != 0 {
+                return Err(format!("{n} fully marked parents each adopted a fresh child through borrow_mut; {} values were destructed by the cycles that followed", drops()));
+            }
+            let bad = arena.mutate(|_, root| root.kids.borrow().iter().filter(|p| p.borrow().kid.is_none()).count());
+            if bad != 0 {
+                return Err(format!("{bad} of {n} adopted children read back as missing"));
+            }
+            drop(arena);
+            if drops() != 2 * n {
+                return Err(format!("{} of {} destructors ran by the time the arena was gone", drops(), 2 * n));
+            }
+        }
+        "weak-many" => {
+            let mut arena = Arena::<Rootable![Wide<'_>]>::new(|mc| {
+                let w = wide(mc);
+                let mut v = w.weaks.borrow_mut(mc);
+                for i in 0..n {
+                    v.push(Gc::downgrade(Gc::new(mc, Cnt(i as u32))));
+                }
+                drop(v);
+                w
+            });
+            let m = arena.metrics().clone();
+            let live = arena.mutate(|mc, root| root.weaks.borrow().iter().filter(|w| w.upgrade(mc).is_some()).count());
+            if live != n {
+                return Err(format!("{} of {n} weak pointers to values nobody has collected yet refuse to upgrade", n - live));
+            }
+            arena.finish_cycle();
+            if drops() != n {
+                return Err(format!("{n} values are only weakly referenced; a full cycle destructed {}", drops()));
+            }
+            let (dropped, up) = arena.mutate(|mc, root| {
+                let v = root.weaks.borrow();
+                (v.iter().filter(|w| w.is_dropped()).count(), v.iter().filter(|w| w.upgrade(mc).is_some()).count())
+            });
+            if dropped != n || up != 0 {
+                return Err(format!("after that cycle {dropped} of {n} weak pointers report dropped and {up} still upgrade"));
+            }
+            // the shells are still allocated (the weak pointers are reachable): count = n + 3
+            if m.total_gc_count() != n + 3 {
+                return Err(format!("{n} shells are held by reachable weak pointers; total_gc_count reads {} (expected {})", m.total_gc_count(), n + 3));
+            }
+            arena.mutate(|mc, root| root.weaks.borrow_mut(mc).clear());
+            arena.finish_cycle();
+            arena.finish_cycle();
+            if m.total_gc_count() != 3 || drops() != n {
+                return Err(format!("the weak pointers are gone and two cycles ran: total_gc_count reads {} (expected 3), {} destructor runs (expected {n})", m.total_gc_count(), drops()));
+            }
+        }
+        "handles-many" => {
+            type R = Rootable![Cnt];
+            let mut arena = Arena::<Rootable![Wide<'_>]>::new(wide);
+            let mut hs: Vec<Option<DynamicRoot<R>>> = arena.mutate(|mc, root| (0..n).map(|i| Some(root.set.stash::<R>(mc, Gc::new(mc, Cnt(i as u32))))).collect());
+            arena.finish_cycle();
+            arena.finish_cycle();
+            if drops() != 0 {
+                return Err(format!("{n} values are stashed in a reachable DynamicRootSet; two full cycles destructed {}", drops()));
+            }
+            // every other handle goes, clones of a few of the rest come and go, the freed slots are used again
+            for (i, h) in hs.iter_mut().enumerate() {
+                if i % 2 == 1 {
+                    *h = None;
+                }
+            }
+            let clones: Vec<DynamicRoot<R>> = hs.iter().step_by(1000).filter_map(|h| h.clone()).collect();
+            arena.finish_cycle();
+            arena.finish_cycle();
+            if drops() != n / 2 {
+                return Err(format!("{} of {n} handles were dropped; two full cycles destructed {} values", n / 2, drops()));
+            }
+            drop(clones);
+            let more: Vec<DynamicRoot<R>> = arena.mutate(|mc, root| (0..n / 2).map(|i| root.set.stash::<R>(mc, Gc::new(mc, Cnt((n + i) as u32)))).collect());
+            arena.finish_cycle();
+            arena.finish_cycle();
+            let wrong = arena.mutate(|_, root| {
+                let a = hs.iter().enumerate().filter(|(i, h)| h.as_ref().is_some_and(|h| !root.set.contains(h) || root.set.fetch(h).0 != *i as u32)).count();
+                let b = more.iter().enumerate().filter(|(i, h)| !root.set.contains(h) || root.set.fetch(h).0 != (n + i) as u32).count();
+                a + b
+            });
+            if wrong != 0 || drops() != n / 2 {
+                return Err(format!("after slot reuse {wrong} handles fetch something else than what was stashed; {} destructor runs (expected {})", drops(), n / 2));
+            }
+            drop(hs);
+            drop(more);
+            arena.finish_cycle();
+            arena.finish_cycle();
+            if drops() != n + n / 2 {
+                return Err(format!("every handle is gone and two cycles ran: {} of {} stashed values were destructed", drops(), n + n / 2));
             }
         }
         _ => return Err(format!("unknown scale variant {variant}")),
